@@ -98,6 +98,9 @@ type Machine struct {
 	events  []string // harness-visible event log (verifLog)
 	divergences int
 	lastClock   *Sym
+	frozen      map[*Value]frozenRef
+	frozenObj   map[interface{}]frozenRef
+	regionSeq   map[string]int
 }
 
 type knownTag struct {
@@ -342,6 +345,10 @@ func isRepoInit(f *ssa.Function) bool {
 		return false
 	}
 	p := f.Pkg.Pkg.Path()
+	if strings.HasSuffix(p, "/playground") {
+		// its init parses an html/template and materialises a 19 kB page; no kernel reads it
+		return false
+	}
 	return strings.HasPrefix(p, "github.com/buildbuildio/pebbles") || strings.HasPrefix(p, "github.com/vektah/gqlparser/v2/ast") || strings.HasPrefix(p, "github.com/vektah/gqlparser/v2/gqlerror")
 }
 
@@ -498,6 +505,7 @@ func (m *Machine) step(g *G) bool {
 			m.throw("invalid memory address or nil pointer dereference (store) at " + m.pos(in))
 		}
 		m.raceWrite(g, p, in)
+		m.touch(p)
 		assign(p, m.get(fr, in.Val))
 		fr.pc++
 	case *ssa.UnOp:
@@ -616,6 +624,7 @@ func (m *Machine) step(g *G) bool {
 			m.throw("assignment to entry in nil map at " + m.pos(in))
 		}
 		m.raceWriteObj(g, mp, in)
+		m.touchObj(mp)
 		mp.set(m, m.get(fr, in.Key), copyVal(m.get(fr, in.Value)))
 		fr.pc++
 	case *ssa.MakeInterface:
@@ -1537,6 +1546,7 @@ func (m *Machine) builtin(g *G, fr *Frame, in ssa.Instruction, b *ssa.Builtin, a
 			return nil
 		}
 		m.raceWriteObj(g, mp, in)
+		m.touchObj(mp)
 		mp.del(m, args[1])
 		return nil
 	case "copy":
@@ -1549,6 +1559,7 @@ func (m *Machine) builtin(g *G, fr *Frame, in ssa.Instruction, b *ssa.Builtin, a
 				tmp[i] = copyVal(src.A[i])
 			}
 			for n < len(d.A) && n < len(tmp) {
+				m.touch(&d.A[n])
 				d.A[n] = tmp[n]
 				n++
 			}
@@ -1653,6 +1664,7 @@ func (m *Machine) appendSlice(s *SliceV, elems []Value, elemSize int64) *SliceV 
 	if n <= cap(base) {
 		na := base[:n]
 		for i, e := range elems {
+			m.touch(&na[len(base)+i])
 			na[len(base)+i] = copyVal(e)
 		}
 		return &SliceV{A: na}
